@@ -66,8 +66,16 @@ class G15:
         for v in locs:
             lines.append("var %s = %s;" % (v, self.expr(vis)))
             vis = vis + [v]
+        late = [self.fresh("h") for _ in range(rng.randrange(0, 4))] if rng.random() < 0.5 else []
+        if late:
+            # hoisted names looked at before their var statements run (directly and from a closure):
+            # whatever the call put into their slots -- which slot is a set-order matter -- shows here
+            lines.append("log(%d, [%s].join(','));" % (self.tag(), ", ".join("typeof %s" % h for h in late)))
+            lines.append("log(%d, (function(){ return [%s].join(','); })());" % (self.tag(), ", ".join("String(%s)" % h for h in late)))
         for _ in range(rng.randrange(2, 6)):
             lines.append(self.stmt(depth, vis, params))
+        for h in late:
+            lines.append("var %s = %s;" % (h, self.expr(vis)))
         if kind == "decl" and rng.random() < 0.25:
             # the function declares a var with its own name and looks at it before the assignment,
             # directly and through an inner closure
@@ -83,6 +91,8 @@ class G15:
         raise AssertionError(kind)
 
     def args(self, n, vis):
+        # sometimes more arguments than the function declares
+        n += self.rng.choice((0, 0, 0, 1, 2, 4))
         return ", ".join(self.expr(vis) for _ in range(n))
 
     def stmt(self, depth, vis, params):
@@ -105,6 +115,11 @@ class G15:
                     "log(%d, %s[0]() + %s[2]());" % (fs, i, i, i, fs, i, a, t, fs, fs))
         if r < 0.70:
             x = self.fresh("x")
+            if rng.random() < 0.5:
+                # a callback that names fewer parameters than it is given and reads hoisted vars early
+                h1, h2 = self.fresh("h"), self.fresh("h")
+                return ("log(%d, [1, 2, 3].map(function(%s){ var r_ = typeof %s + typeof %s; var %s = %s, %s = 2; return r_ + (%s * %s) %% 9973; }).join(','));"
+                        % (t, x, h1, h2, h1, x, h2, x, self.expr(vis)))
             return "log(%d, [1, 2, 3].map(function(%s){ return (%s * %s) %% 9973; }).join(','));" % (t, x, x, self.expr(vis))
         if r < 0.78:
             fname = self.fresh("fact")
